@@ -496,15 +496,23 @@ where
             });
         }
 
+        // Fast check: line lengths including the line terminators
         let qual_len = self.buf_pos.pos.1 - self.buf_pos.qual + 1;
         let seq_len = self.buf_pos.sep - self.buf_pos.seq;
-        if seq_len != qual_len {
-            self.state = State::Finished;
-            return Err(Error::UnequalLengths {
-                seq: self.buf_pos.seq(self.get_buf()).len(),
-                qual: self.buf_pos.qual(self.get_buf()).len(),
-                pos: self.get_error_pos(0, true),
-            });
+        if seq_len != qual_len || self.buf_pos.pos.1 == self.get_buf().len() {
+            // The terminators may differ: the last line of the input can lack
+            // one altogether (while the sequence line ends with LF or CRLF).
+            // Compare the lengths without terminators.
+            let seq = self.buf_pos.seq(self.get_buf()).len();
+            let qual = self.buf_pos.qual(self.get_buf()).len();
+            if seq != qual {
+                self.state = State::Finished;
+                return Err(Error::UnequalLengths {
+                    seq,
+                    qual,
+                    pos: self.get_error_pos(0, true),
+                });
+            }
         }
         Ok(())
     }
